@@ -6,6 +6,7 @@
    an independent reference accessory).  Partial: strength of the primitives and
    their byte encodings are outside the model. *)
 From Coq Require Import List NArith Arith Bool Lia.
+From AHK Require Import Model.Sha512 Proofs.Sha512 Model.Hkdf Proofs.Hkdf.
 From AHK Require Import Lib.Res Lib.ByteStr Model.Tlv Model.Sym Model.Verify Model.VerifyHist Model.VerifyConn
      Proofs.SymFacts Proofs.VerifyFacts Proofs.VerifyHistFacts Proofs.VerifyConnFacts.
 Import ListNotations.
@@ -367,3 +368,39 @@ Print Assumptions conn_verify_after_end.
 Print Assumptions conn_inflight_not_live.
 Print Assumptions conn_inflight_not_live_ip_coap.
 Print Assumptions conn_done_or_inflight.
+
+(* ------------------------------------------------------------------ what THkdf stands for, bit for bit *)
+(* Model/Hkdf.v (over Model/Sha512.v) is aiohomekit/crypto/hkdf.py::hkdf_derive - RFC 5869 HKDF over
+   HMAC-SHA-512 - tied to the code by harness/hkdftie.py inside this check.  The symbolic theorems above
+   treat it as a free constructor; these say what the real function guarantees by construction. *)
+Theorem hkdf_session_keys_are_32_bytes : forall ikm salt info,
+    exists out, hkdf_derive ikm salt info 32 = Some out /\ length out = 32.
+Proof. exact hkdf_derive_32. Qed.
+
+Theorem hkdf_length_exact : forall ikm salt info len out,
+    hkdf_derive ikm salt info len = Some out -> length out = len.
+Proof. exact hkdf_derive_length. Qed.
+
+Theorem hkdf_raises_exactly_above_16320 : forall ikm salt info len,
+    hkdf_derive ikm salt info len = None <-> 255 * 64 < len.
+Proof. exact hkdf_derive_guard. Qed.
+
+(* keys are separated by their salt/info labels, never by the requested length: a shorter output is a
+   prefix of a longer one *)
+Theorem hkdf_shorter_is_prefix : forall ikm salt info l1 l2 o1 o2,
+    l1 <= l2 -> hkdf_derive ikm salt info l1 = Some o1 -> hkdf_derive ikm salt info l2 = Some o2 ->
+    o1 = firstn l1 o2.
+Proof. exact hkdf_derive_prefix. Qed.
+
+Theorem hkdf_empty_salt_is_zero_salt : forall ikm, hkdf_extract [] ikm = hkdf_extract (repeat 0%N 64) ikm.
+Proof. exact hkdf_extract_empty_salt. Qed.
+
+Theorem sha512_digest_shape : forall m, length (sha512 m) = 64 /\ all_bytes (sha512 m) = true.
+Proof. exact sha512_shape. Qed.
+
+Print Assumptions hkdf_session_keys_are_32_bytes.
+Print Assumptions hkdf_length_exact.
+Print Assumptions hkdf_raises_exactly_above_16320.
+Print Assumptions hkdf_shorter_is_prefix.
+Print Assumptions hkdf_empty_salt_is_zero_salt.
+Print Assumptions sha512_digest_shape.
